@@ -91,7 +91,7 @@ pub fn boundary_event<V: Fv>(rng: &mut impl RngCore, norm: i64, k: usize, sign: 
 }
 
 /// s1 with entries at the centred-reduction edge: c - s2*h = +-6144 exactly in some places.
-pub fn edge_event<V: Fv>(rng: &mut impl RngCore, tag: &str) -> Value {
+pub fn edge_event<V: Fv>(rng: &mut impl RngCore, positive: bool, tag: &str) -> Value {
     let n = V::N;
     let mut salt = [0u8; 40];
     rng.fill_bytes(&mut salt);
@@ -102,7 +102,7 @@ pub fn edge_event<V: Fv>(rng: &mut impl RngCore, tag: &str) -> Value {
     // one entry +6144/-6144 only when the bound allows: 6144^2 = 37748736 > 34034726 (512) but < 70265242 (1024).
     let mut e = vec![0i16; n];
     if n == 1024 {
-        e[3] = if rng.gen::<bool>() { 6144 } else { -6144 };
+        e[3] = if positive { 6144 } else { -6144 };
         // fill the rest up to the exact bound
         let rest = V::BOUND - 1 - 6144i64 * 6144;
         let filler = vec_with_norm(n - 8, rest, 1);
@@ -248,7 +248,8 @@ pub fn c02_corpus<V: Fv>(seed: u64, thorough: bool, out: &mut Shards) {
     }
     out.emit(boundary_event::<V>(&mut rng, 1, 0, 1, 3, "norm-one"));
     out.emit(boundary_event::<V>(&mut rng, 2 * V::BOUND, 1, -1, 4, "norm-double"));
-    out.emit(edge_event::<V>(&mut rng, "centred-edge"));
+    out.emit(edge_event::<V>(&mut rng, true, "centred-edge-plus"));
+    out.emit(edge_event::<V>(&mut rng, false, "centred-edge-minus"));
     // --- degenerate public keys
     {
         let msg = b"degenerate".to_vec();
@@ -264,8 +265,17 @@ pub fn c02_corpus<V: Fv>(seed: u64, thorough: bool, out: &mut Shards) {
         let mut pkb = V::pk_to_bytes(&keys[0].1);
         pkb[0] ^= 0x10;
         out.emit(verify_event::<V>(&msg, &sigb, &pkb, "pk-header"));
-        pkb.push(0);
-        out.emit(verify_event::<V>(&msg, &sigb, &pkb, "pk-length"));
+        // wrong lengths with an otherwise intact encoding: one byte more / less, other multiples
+        let good = V::pk_to_bytes(&keys[0].1);
+        for extra in [1usize, 2, 7] {
+            let mut p = good.clone();
+            p.extend(vec![0u8; extra]);
+            out.emit(verify_event::<V>(&msg, &sigb, &p, "pk-length"));
+        }
+        out.emit(verify_event::<V>(&msg, &sigb, &good[..good.len() - 1], "pk-length"));
+        let mut s2 = sigb.clone();
+        s2.push(0);
+        out.emit(verify_event::<V>(&msg, &s2, &good, "sig-length"));
         out.emit(verify_event::<V>(&msg, &sigb[..sigb.len() - 1], &V::pk_to_bytes(&keys[0].1), "sig-length"));
     }
 }
